@@ -8,6 +8,7 @@ POS_FREE = [(r"(\{\d+:[0-9a-f-]*):-?\d+:-?\d+:-?\d+:-?\d+:", r"\1:"),     # toke
             (r"(^| )(\d+:[0-9a-f-]*):-?\d+:-?\d+:-?\d+:-?\d+:", r"\1\2:"),  # lex suite tokens
             (r"(E\d+:-?\d+):-?\d+:-?\d+:-?\d+:-?\d+", r"\1")]              # parser errors
 CODE_ONLY = [(r" v=\d+ names=.*$", ""), (r" nomap$", "")]
+WRITER_NOMAP = [(r" names=\[.*$", ""), (r" nomap$", "")]                 # writer suite: buffer and indent level only
 
 TRUSTED_BASE = [
     "Coq 8.16.1 kernel (coqc, full .vo build; coqchk re-check in the thorough tier); vm_compute used for finite sweeps; native_compute not used",
@@ -75,7 +76,7 @@ PROPS = {
         technique="Coq proof (termination measure + invariants by induction on fuel) + model/implementation correspondence",
         suites=[dict(suite="parse", n_quick=3000, n_thorough=100000, what="sources x 4 modes: tree, EOF token, errors, error flag, final context"),
                 dict(suite="print", n_quick=1500, n_thorough=50000, what="trees x compiler configurations: code, map, panic",
-                     projection=[(r" v=\d+ names=.*$", ""), (r" nomap$", "")])],
+                     projection=CODE_ONLY)],
         oracle_n_quick=1500, oracle_n_thorough=50000,
         explanation="C11: parse_total, parse_error_iff, parse_lists_ok, parse_error_ranges, parse_clean_compiles.",
         assumptions=["no plugin registers an operator on the end-of-input token (ops_sane): such a plugin makes the real parser loop forever",
@@ -112,9 +113,9 @@ PROPS = {
         level_text="Proved for all trees over the printer regenerated from ast.go and the writer model: the semicolon option is read only by the statement-terminator operation (output without semicolons = output with them of the same operations minus the terminators), and indentation options made of blanks change only leading whitespace of lines (through cleanEmptyLines). Same-tree and idempotence clauses are explored by the oracle (they need the lexer/printer round trip).",
         level_note="Trusted: Coq kernel, translator xjs2v (WriteTo bodies), extraction, harness/driver correspondence (print suite over all option combinations). Modelled not verified: CodeWriter and cleanEmptyLines (strings.TrimSpace modelled on ASCII white space).",
         technique="Coq proof (simulation of two writer runs; structural invariant of the generated printer) + model/implementation correspondence",
-        suites=[dict(suite="writer", n_quick=3000, n_thorough=100000, what="random histories of the exported CodeWriter methods: buffer, indent level, mappings"),
+        suites=[dict(suite="writer", n_quick=3000, n_thorough=100000, what="random histories of the exported CodeWriter methods: buffer, indent level, mappings", projection=WRITER_NOMAP),
                 dict(suite="print", n_quick=2000, n_thorough=50000, what="trees x compiler configurations: code",
-                     projection=[(r" v=\d+ names=.*$", ""), (r" nomap$", "")])],
+                     projection=CODE_ONLY)],
         oracle_n_quick=600, oracle_n_thorough=20000, oracle_n_search=3000,
         explanation="C06 (layout clauses): C06_semi_only, C06_indent_only.",
         open_statements=["C06_same_tree (pretty output re-parses to the compact tree)", "C06_idempotent"],
@@ -150,7 +151,7 @@ PROPS = {
         suites=[dict(suite="lex", n_quick=4000, n_thorough=200000, what="byte strings incl. every escape shape: all token fields",
                      projection=POS_FREE),
                 dict(suite="print", n_quick=1000, n_thorough=50000, what="trees x configurations: code",
-                     projection=[(r" v=\d+ names=.*$", ""), (r" nomap$", "")])],
+                     projection=CODE_ONLY)],
         oracle_n_quick=300, oracle_n_thorough=20000,
         explanation="C07: C07_string, C07_string_printed, C07_backtick, C07_utf8, C07_number_printed.",
         assumptions=["legacy octal escapes and other escapes that are syntax errors in strict mode are outside the subset (SV = None)",
@@ -162,7 +163,7 @@ PROPS = {
         level_note="Trusted: Coq kernel, translator xjs2v (WriteTo bodies, both precedence tables), extraction, harness/driver correspondence (print suite with assembled trees), Grammar.v. Modelled not verified: CodeWriter. Recorded findings on assembled trees: KF4 (dangling else); semicolons-off hazards KF1/KF2; KF3.",
         technique="Coq proof (tree induction against the grammar's level discipline) + model/implementation correspondence",
         suites=[dict(suite="print", n_quick=2000, n_thorough=50000, what="parser-produced and assembled trees x configurations: code, panic",
-                     projection=[(r" v=\\d+ names=.*$", ""), (r" nomap$", "")]),
+                     projection=CODE_ONLY),
                 dict(suite="parse", n_quick=1500, n_thorough=50000, what="re-parse side: trees, errors",
                      projection=POS_FREE)],
         oracle_n_quick=300, oracle_n_thorough=20000,
@@ -174,9 +175,9 @@ PROPS = {
         level_text="Coq theorems over the printer regenerated from ast.go and the writer model: compact output (code and source map) is independent of all comments; erasing the trivia of a tree changes exactly the WriteLeadingComments arguments and nothing else in the operation list; a trivia list is written verbatim, once, at the current indentation, leaving a pending line break + indentation; comment text never influences what else is written. That a comment is still in front of the same statement after re-lexing the output is explored by the oracle (decorated programs with unique comments at every statement boundary).",
         level_note="Trusted: Coq kernel, translator xjs2v (WriteTo bodies), extraction, harness/driver correspondence (lex suite for trivia collection, print and writer suites for replay). Recorded finding KF5 (a comment without text is stored like a blank line).",
         technique="Coq proof (tree induction over the generated printer; writer characterisation) + model/implementation correspondence",
-        suites=[dict(suite="writer", n_quick=3000, n_thorough=100000, what="CodeWriter histories incl. WriteLeadingComments"),
+        suites=[dict(suite="writer", n_quick=3000, n_thorough=100000, what="CodeWriter histories incl. WriteLeadingComments", projection=WRITER_NOMAP),
                 dict(suite="print", n_quick=1500, n_thorough=50000, what="trees x configurations: code",
-                     projection=[(r" v=\\d+ names=.*$", ""), (r" nomap$", "")]),
+                     projection=CODE_ONLY),
                 dict(suite="lex", n_quick=2000, n_thorough=100000, what="trivia attached to tokens",
                      projection=POS_FREE)],
         oracle_n_quick=600, oracle_n_thorough=20000,
@@ -191,7 +192,7 @@ PROPS = {
         suites=[dict(suite="lex", n_quick=3000, n_thorough=100000, what="byte strings: all token fields", projection=POS_FREE),
                 dict(suite="parse", n_quick=2000, n_thorough=50000, what="sources x modes: tree, errors", projection=POS_FREE),
                 dict(suite="print", n_quick=2000, n_thorough=50000, what="trees x compiler configurations: code", projection=CODE_ONLY),
-                dict(suite="writer", n_quick=2000, n_thorough=50000, what="random histories of the exported CodeWriter methods: buffer, indent level")],
+                dict(suite="writer", n_quick=2000, n_thorough=50000, what="random histories of the exported CodeWriter methods: buffer, indent level", projection=WRITER_NOMAP)],
         oracle_n_quick=120, oracle_n_thorough=4000, oracle_n_search=600,
         explanation="C01: C01_tokens_preserved, C01_lexer_canonical, C01_code_tokens, C01_source_to_code.",
         open_statements=["C01_behaviour (same printed values and completion in a JavaScript engine): not expressible without a JavaScript semantics; explored by the oracle with node 20"],
@@ -304,6 +305,8 @@ def bridge(prop, suite, line):
             out.append("p " + h)
         elif prop == "C08":
             out += ["X cm " + h, "X pm:2020:1 " + h, "X pm:09:0 " + h]
-    elif d["sexpr"] is not None and prop == "C03":
-        out.append("T " + d["sexpr"])
+    # assembled trees of the print suite are arbitrary (nil children, let expressions
+    # anywhere): they exercise the printer correspondence but are outside C03's
+    # quantifier, so they are not replayed by its oracle (its own generator builds the
+    # assembled trees of the property's domain)
     return out
